@@ -4,7 +4,9 @@ import (
 	"database/sql/driver"
 	"encoding"
 	"fmt"
+	"sort"
 	"strings"
+	"sync"
 
 	"github.com/brocaar/lorawan"
 )
@@ -209,6 +211,55 @@ func drvIdent(c *ctx) error {
 		}
 		for x := 0; x < 1<<24; x += step {
 			c.emit(prefixEvent(c, netIDOf(x), c.addrPatterns()[c.rnd.Intn(4)]))
+		}
+	case "concurrent": // eight goroutines, each with its own NetID (one per type), in tight loops: every distinct result is recorded
+		for round := 0; round < c.n; round++ {
+			type res struct {
+				n      lorawan.NetID
+				a, out lorawan.DevAddr
+				is, in bool
+			}
+			var mu sync.Mutex
+			seen := map[res]bool{}
+			var wg sync.WaitGroup
+			start := make(chan struct{})
+			for g := 0; g < 8; g++ {
+				var n lorawan.NetID
+				copy(n[:], c.bytesN(3))
+				n[0] = n[0]&0x1f | byte(g)<<5 // NetID type g
+				addrs := make([]lorawan.DevAddr, 4)
+				for i := range addrs {
+					copy(addrs[i][:], c.bytesN(4))
+				}
+				wg.Add(1)
+				go func(n lorawan.NetID, addrs []lorawan.DevAddr) {
+					defer wg.Done()
+					<-start
+					var prev res
+					for it := 0; it < 20000; it++ {
+						a := addrs[it%len(addrs)]
+						out := a
+						out.SetAddrPrefix(n)
+						r := res{n, a, out, out.IsNetID(n), a.IsNetID(n)}
+						if r != prev && it >= len(addrs) || it < len(addrs) {
+							mu.Lock()
+							seen[r] = true
+							mu.Unlock()
+						}
+						prev = r
+					}
+				}(n, addrs)
+			}
+			close(start)
+			wg.Wait()
+			var keys []res
+			for r := range seen {
+				keys = append(keys, r)
+			}
+			sort.Slice(keys, func(i, j int) bool { return fmt.Sprint(keys[i]) < fmt.Sprint(keys[j]) })
+			for _, r := range keys {
+				c.emit(M{"ev": "prefixc", "netid": bs(r.n[:]), "addr": bs(r.a[:]), "out": bs(r.out[:]), "isnet": r.is, "isnetin": r.in})
+			}
 		}
 	case "repr":
 		for i := 0; i < c.n; i++ {
